@@ -607,7 +607,7 @@ func detMemo(f *ssa.Function) (bool, string) {
 
 func c17(r *core.Run) {
 	p := r.P
-	r.Explain = "C17 decided structurally: (REC) every recursive strongly connected component of the module call graph that is reachable from the analysis entry points is classified by a detector whose premise is re-checked on every run — depth parameter compared with a constant and incremented on every cycle; visited-set keyed by the recursion argument; strictly shrinking string argument; descent through go/types accessors; traversal of symbolic expression trees whose construction is size-capped; memoised expansion in the renamer — an unclassified or failing component is reported; (CAPS) the work caps dominate their sinks: candidate buckets (len < MaxCandidates), the LCS window, the block-count guard before canonicalisation, per-string and per-function byte caps for string literals, LimitReader on provider responses, the rendered-expression digest cap. Not decided: the polynomial bound itself and comparison counts (needs a dynamic counter: another technique family)."
+	r.Explain = "C17 decided structurally: (REC) every recursive strongly connected component of the module call graph that is reachable from the analysis entry points is classified by a detector whose premise is re-checked on every run — depth parameter compared with a constant and incremented on every cycle; visited-set keyed by the recursion argument; strictly shrinking string argument; descent through go/types accessors; traversal of symbolic expression trees whose construction is size-capped; memoised expansion in the renamer — an unclassified or failing component is reported; (CAPS) the work caps dominate their sinks: candidate buckets (len < MaxCandidates), the LCS window, the block-count guard before canonicalisation, per-string and per-function byte caps for string literals, LimitReader on provider responses, the rendered-expression digest cap. Not decided: the polynomial bound itself and comparison counts (needs a dynamic counter: another technique family). (REC, sharpened) a memo counts only if it is filled whenever the value was computed (no condition beyond the computation's own, except the cache-nil test); (CAPS) the structural matcher is constructed only when neither side carries the size guard's marker."
 	r.Undecided = []string{"the polynomial work bound as a number", "instruction-matching comparison counts", "fuzzer-mutated inputs (crash freedom beyond recursion/size bounds)"}
 
 	var entries []*ssa.Function
